@@ -336,6 +336,19 @@ func (e *Eng) boundVal(t types.Type, hint string) (Val, []string) {
 func calleeOf(cc *ssa.CallCommon) ssa.Value { return cc.Value }
 
 func (e *Eng) doCall(fr *Frame, st *State, instr ssa.Instruction, cc *ssa.CallCommon, mode string) {
+	// `nocall X`: a reachable call of X from this function (or from a closure it runs) is a failed obligation
+	if !fr.pure && e.fc != nil && len(e.fc.NoCalls) > 0 && !e.collect {
+		name := calleeName(cc)
+		for _, nc := range e.fc.NoCalls {
+			if calleeMatches(name, nc.Expr) {
+				if e.noCallHit == nil {
+					e.noCallHit = map[*Clause]bool{}
+				}
+				e.noCallHit[nc] = true
+				e.oblige(st, "nocall", nc.Label, propsOf(nc, e), "false", instr, "this function must never call "+nc.Expr+" (reached here)")
+			}
+		}
+	}
 	// `callsite X#n (vars) require expr`: an assertion about the state in which the call is made
 	if !fr.pure && e.fc != nil && len(e.fc.Sites) > 0 && fr.fn == e.fn {
 		name := calleeName(cc)
@@ -1072,6 +1085,43 @@ func (e *Eng) applyContract(fr *Frame, st *State, instr ssa.Instruction, fc *Fun
 	disp := key
 	if fn := e.w.FnOf[fc]; fn != nil {
 		disp = fnDisplayName(fn)
+	}
+	// results the callee's protocol obliges the caller to look at
+	if len(fc.MustUse) > 0 && !fr.pure && fr.fn == e.fn && !e.collect && sig != nil {
+		if call, ok := instr.(*ssa.Call); ok {
+			for _, mu := range fc.MustUse {
+				idx := -1
+				for i := 0; i < sig.Results().Len(); i++ {
+					if sig.Results().At(i).Name() == mu[0] {
+						idx = i
+					}
+				}
+				if idx < 0 {
+					for i, rn := range specResultNames(fc.Sig) {
+						if rn == mu[0] {
+							idx = i
+						}
+					}
+				}
+				used := false
+				if refs := call.Referrers(); refs != nil && idx >= 0 {
+					for _, r := range *refs {
+						if ex, ok := r.(*ssa.Extract); ok && ex.Index == idx {
+							if er := ex.Referrers(); er != nil {
+								for _, u := range *er {
+									if _, dbg := u.(*ssa.DebugRef); !dbg {
+										used = true
+									}
+								}
+							}
+						}
+					}
+				}
+				if !used {
+					e.oblige(st, "mustuse", "["+disp+"]."+mu[0], e.allProps(), "false", instr, "result "+mu[0]+" of "+disp+" is discarded: "+mu[1])
+				}
+			}
+		}
 	}
 	// preconditions
 	cst := st
@@ -2226,6 +2276,22 @@ func (e *Eng) localAt(fr *Frame, st *State, at ssa.Instruction, name string) Val
 	panic(unsupportedErr{fmt.Sprintf("callsite clause in %s: cannot resolve local %q", e.fn, name)})
 }
 
+
+// specResultNames: the result names written in an extern / iface contract header "(params) (results)".
+func specResultNames(sig string) []string {
+	i := strings.LastIndex(sig, "(")
+	if i < 0 {
+		return nil
+	}
+	var out []string
+	for _, p := range splitTop(strings.Trim(strings.TrimSpace(sig[i:]), "()"), ',') {
+		f := strings.Fields(strings.TrimSpace(p))
+		if len(f) > 0 {
+			out = append(out, f[0])
+		}
+	}
+	return out
+}
 
 // calleeMatches: a callsite clause names its callee by full name or by any suffix that starts at a
 // package, type or function boundary ("tls.Client", "Client", "(*Conn).Handshake", "Handshake").
